@@ -267,7 +267,7 @@ func TestC08_RoundTrip(t *testing.T) {
 func TestC08_Subsets(t *testing.T) {
 	r := ev.New(t, "C08", "TestC08_Subsets")
 	defer r.Flush()
-	reps := ev.N(3, 400)
+	reps := ev.N(24, 2400)
 	subsets := 0
 	for rep := 0; rep < reps; rep++ {
 		for mi, b := range usable() {
@@ -359,7 +359,7 @@ func c08UnknownOracle(c c08Unknown) ev.Verdict {
 func TestC08_UnknownTypes(t *testing.T) {
 	r := ev.New(t, "C08", "TestC08_UnknownTypes")
 	defer r.Flush()
-	reps := ev.N(2, 40)
+	reps := ev.N(8, 80)
 	known := 0
 	for rep := 0; rep < reps; rep++ {
 		for _, epd := range []int{0x7E, 0x2E, -1} {
